@@ -428,3 +428,11 @@ Definition p_identity_ops (tolexp : Z) (x Wx Winvx Hsx : list dy) : N :=
 Definition c_bitsame (a b : list float) : N :=
   ofb (Nat.eqb (length a) (length b) &&
        forallb (fun p => PrimFloat.eqb (fst p) (snd p)) (combine a b)).
+
+(** the gemv-like contract of mul_W / mul_Winv:  y_out = α·(W x) + β·y_in, exactly in dyadics, with
+    W x taken from the implementation's own call with α = 1, β = 0; tolerance relative to
+    |α||W x| + |β||y_in| *)
+Definition p_affine (tolexp : Z) (a b : dy) (Wx yin yout : list dy) : N :=
+  let sc := dadd (dmul (dabs a) (dnorminf Wx)) (dmul (dabs b) (dnorminf yin)) in
+  let expect := dmap2 (fun p q => dadd (dmul a p) (dmul b q)) Wx yin in
+  ofb (Nat.eqb (length Wx) (length yin) && dallclose (dpow2 tolexp) sc yout expect).
